@@ -214,8 +214,11 @@ def check_loops(case, rec):
                         got = None; raised = e
             finally:
                 _util.function = orig_function
-        time.sleep(0.01)
-        kids = surviving_children()
+        # a killed worker needs a moment to disappear (SIGKILL is asynchronous): only a child that is still running after a generous grace period survived
+        for _ in range(300):
+            kids = surviving_children()
+            if not kids: break
+            time.sleep(0.01)
         if kids:
             for k in kids:
                 try: os.kill(k, signal.SIGKILL)
